@@ -369,6 +369,7 @@ Record state := mkState {
   st_routes : list (list cell);     (* per vehicle: first cell, interior, last cell *)
   st_planned : list nat;            (* unit indices; kept as duplicate-free lists *)
   st_unplanned : list nat;
+  st_fixed : list nat;
   st_scores : list Z;               (* one per installed objective term *)
   st_total : Z
 }.
@@ -384,7 +385,7 @@ Fixpoint set_nth {A} (l : list A) (i : nat) (x : A) : list A :=
   end.
 
 Definition set_route (s : state) (v : nat) (r : list cell) : state :=
-  mkState (set_nth (st_routes s) v r) (st_planned s) (st_unplanned s) (st_scores s) (st_total s).
+  mkState (set_nth (st_routes s) v r) (st_planned s) (st_unplanned s) (st_fixed s) (st_scores s) (st_total s).
 
 Definition mem_nat (x : nat) (l : list nat) : bool := existsb (Nat.eqb x) l.
 Definition coll_add (x : nat) (l : list nat) : list nat := if mem_nat x l then l else l ++ [x].
@@ -439,7 +440,7 @@ Definition score_terms (inp : input) (s : state) : list Z :=
 
 Definition refresh_scores (inp : input) (s : state) : state :=
   let t := score_terms inp s in
-  mkState (st_routes s) (st_planned s) (st_unplanned s) t (sumZ t).
+  mkState (st_routes s) (st_planned s) (st_unplanned s) (st_fixed s) t (sumZ t).
 
 (* ------------------------------------------------------------------ *)
 (* isFeasible on vehicle v from position idx (the cell at idx is cached) *)
@@ -488,7 +489,7 @@ Definition exec_move (inp : input) (s : state) (mv : move) : state * result :=
   let v := mv_vehicle mv in
   if unit_planned inp s u then (s, NotExecutable) else
   let s1 := mkState (st_routes s) (coll_add u (st_planned s)) (coll_remove u (st_unplanned s))
-                    (st_scores s) (st_total s) in
+                    (st_fixed s) (st_scores s) (st_total s) in
   let old_stops := route_stops (get_route s v) in
   let new_stops := insert_places 0 old_stops (mv_places mv) in
   let idx := (first_gap (mv_places mv) - 1)%nat in
@@ -496,7 +497,7 @@ Definition exec_move (inp : input) (s : state) (mv : move) : state * result :=
   | inl s2 => (s2, Done)
   | inr k =>
       let s3 := mkState (st_routes s) (coll_remove u (st_planned s1)) (coll_add u (st_unplanned s1))
-                        (st_scores s) (st_total s) in
+                        (st_fixed s) (st_scores s) (st_total s) in
       match is_feasible inp s3 v idx old_stops true with
       | inl s4 => (s4, Rejected k)
       | inr _ => (s3, UndoFailed)
@@ -530,14 +531,14 @@ Definition unplan_unit (inp : input) (s : state) (u : nat) : state * result :=
       let new_stops := filter (fun x => negb (mem_nat x us)) old_stops in
       let idx := (first_gap places - 1)%nat in
       let s1 := mkState (st_routes s) (coll_remove u (st_planned s)) (coll_add u (st_unplanned s))
-                        (st_scores s) (st_total s) in
+                        (st_fixed s) (st_scores s) (st_total s) in
       match is_feasible inp s1 v idx new_stops true with
       | inl s2 => (s2, Done)
       | inr k =>
           (* re-insert through Execute (which swaps the collections itself),
              then UnPlan restores its own bookkeeping *)
           let s2 := mkState (st_routes s) (coll_add u (st_planned s1)) (coll_remove u (st_unplanned s1))
-                            (st_scores s) (st_total s) in
+                            (st_fixed s) (st_scores s) (st_total s) in
           match is_feasible inp s2 v idx old_stops true with
           | inl s3 => (s3, Rejected k)
           | inr _ => (s2, UndoFailed)
@@ -567,6 +568,6 @@ Definition new_solution (inp : input) : option state :=
   let nv := length (in_vehicles inp) in
   match all_some (map (empty_route inp) (seqn nv)) with
   | Some routes =>
-      Some (refresh_scores inp (mkState routes [] (seqn (length (in_units inp))) [] 0))
+      Some (refresh_scores inp (mkState routes [] (seqn (length (in_units inp))) [] [] 0))
   | None => None
   end.
